@@ -29,7 +29,7 @@ STALL_S = 300
 
 def plan(tier, seed):
     units = []
-    reps = 5 if tier == 'quick' else 150
+    reps = 12 if tier == 'quick' else 150
     for rep in range(reps):
         for proto in ('tlcp', 'tls12', 'tls13'):
             for mutual in (False, True):
